@@ -378,7 +378,354 @@ def case_spec(ctx, inp):
             break
 
 
-CASES = {"opt": case_opt, "fn": case_fn, "spec": case_spec}
+
+# ---------------------------------------------------------------------------------------------
+# task-spec passes against the Lean model (Model/SpecOpt.lean) and the proved checkers
+# ---------------------------------------------------------------------------------------------
+
+def _canon(x):
+    return json.dumps(x, sort_keys=True, default=str)
+
+
+def fnode_sexp(n):
+    """a node of a (possibly fused) task-spec graph -> s-expression (model `FNode`)"""
+    from dask._task_spec import Task, _execute_subgraph
+    if isinstance(n, Task) and n.func is _execute_subgraph:
+        inner, outkey, ext = n.args[0], n.args[1], n.args[2]
+        return [Sym("fused"), [[to_sexp(k), node_sexp(v)] for k, v in inner.items()], to_sexp(outkey),
+                [to_sexp(d) for d in ext]]
+    return node_sexp(n)
+
+
+def _canon_fnode(x):
+    if isinstance(x, list) and x and x[0] == "fused" and len(x) == 4:
+        return _canon(["fused", sorted(_canon(e) for e in x[1]), x[2], sorted(_canon(d) for d in x[3])])
+    return _canon(x)
+
+
+def _canon_graph(entries):
+    return sorted((_canon(k), _canon_fnode(v)) for k, v in entries)
+
+
+def _ngraph(dsk):
+    return [[to_sexp(k), node_sexp(v)] for k, v in dsk.items()]
+
+
+def _fused_digest(name, reserve):
+    """reference computation of the hash suffix `default_fused_keys_renamer` appends to an over-long name"""
+    if reserve == 5:
+        return f"{hash(name):x}"[:4]
+    import hashlib
+    return hashlib.md5(name.encode(errors="surrogatepass"), usedforsecurity=False).hexdigest()
+
+
+def _spec_passes(ctx, dsk, keys, want, tag=""):
+    """function-level diffs of cull / resolve_aliases / fuse_linear_task_spec / Task.fuse / substitute against the
+    model, the proved checker on the real fusion output, and the statement's clauses on every real output"""
+    from dask._task_spec import (Alias, DependenciesMapping, Task, TaskRef, cull, fuse_linear_task_spec,
+                                 resolve_aliases)
+    from dask.core import reverse_dict
+    from dask.optimization import default_fused_keys_renamer
+    gs = _ngraph(dsk)
+    ks = [to_sexp(k) for k in keys]
+
+    def check(op, out):
+        missing = [k for k in keys if k not in out]
+        if missing:
+            ctx.fail(f"{op}: requested key missing from the returned graph", observed=repr(missing))
+            return False
+        got = _vals(out, keys)
+        if got != want:
+            ctx.fail(f"{op}: value of a requested key changed", observed=got, expected=want)
+            return False
+        return True
+    # --- cull
+    for kk in (list(keys), list(keys) + list(keys)[:1]):
+        try:
+            out = cull(dsk, kk)
+        except Exception as e:
+            ctx.fail(f"task-spec cull raised {type(e).__name__}: {e}")
+            continue
+        check("task-spec cull", out)
+        m = ctx.lean(Sym("spec_cull"), gs, [to_sexp(k) for k in kk])
+        if m[0] != "ok":
+            ctx.disagree("task-spec cull: the model runs out of fuel / raises", m, "ok")
+        else:
+            ctx.eq("task-spec cull (model vs code)", _canon_graph(m[1]), _canon_graph(_ngraph(out)))
+        if len(out) < len(dsk):
+            ctx.branch("spec-cull-removes" + tag)
+        if len(kk) == len(dsk):
+            ctx.branch("spec-cull-shortcut-len(keys)==len(dsk)")
+    # --- resolve_aliases
+    deps = DependenciesMapping(dsk)
+    dependents = reverse_dict(deps)
+    try:
+        out = resolve_aliases(dsk, set(keys), dependents)
+    except Exception as e:
+        ctx.fail(f"resolve_aliases raised {type(e).__name__}: {e}")
+        out = None
+    if out is not None:
+        check("resolve_aliases", out)
+        nd = [[to_sexp(k), len(v)] for k, v in dependents.items()]
+        m = ctx.lean(Sym("spec_resolve"), gs, ks, nd)
+        if m[0] != "ok":
+            ctx.disagree("resolve_aliases: the model runs out of fuel", m, "ok")
+        else:
+            ctx.eq("resolve_aliases (model vs code)", _canon_graph(m[1]), _canon_graph(_ngraph(out)))
+        # the hypothesis of resolveAliases_preserves_eval: len(dependents[k]) is the number of entries referring to k
+        for k in list(dsk)[:3]:
+            ctx.eq("countRefs = len(dependents[k])", ctx.lean(Sym("spec_count_refs"), gs, to_sexp(k)), len(dependents[k]))
+        if len(out) < len(dsk):
+            ctx.branch("resolve_aliases-collapses" + tag)
+            if len(dsk) - len(out) > 1:
+                ctx.branch("resolve_aliases-collapses>=2")
+    # --- fuse_linear_task_spec
+    try:
+        out = fuse_linear_task_spec(dsk, keys)
+    except Exception as e:
+        ctx.fail(f"fuse_linear_task_spec raised {type(e).__name__}: {e}")
+        out = None
+    if out is not None:
+        ok = check("fuse_linear_task_spec", out)
+        if None in out:
+            ctx.fail("fuse_linear_task_spec: the returned graph has the key None")
+        impl = [[to_sexp(k), fnode_sexp(v)] for k, v in out.items()]
+        chains = ctx.lean(Sym("spec_fuse_chains"), gs, ks)
+        back = {_canon(to_sexp(k)): k for k in dsk}
+        ren = []
+        for c in chains:
+            try:
+                real = default_fused_keys_renamer([back[_canon(x)] for x in c])
+            except Exception as e:
+                ctx.fail(f"default_fused_keys_renamer raised {type(e).__name__}: {e}")
+                real = None
+            ren.append([c, Sym("norename") if real is None else to_sexp(real)])
+        m = ctx.lean(Sym("spec_fuse_linear"), gs, ks, ren)
+        ctx.eq("fuse_linear_task_spec (model vs code)", _canon_graph(m), _canon_graph(impl))
+        okc = ctx.lean(Sym("spec_fuse_ok"), gs, ks, impl)
+        ctx.eq("fuse_linear_task_spec: proved checker fuseSpecOK accepts the real output", okc, True)
+        if ok and okc is True:
+            # the model's evaluator of fused graphs agrees with the real execution
+            for k, w in zip(keys, want):
+                mv = ctx.lean(Sym("spec_eval_f"), impl, [], to_sexp(k))
+                ctx.eq("value of a requested key: evalKeyF (model) vs dask.core.get", mv[1] if mv[0] == "ok" else mv, w)
+        nf = sum(1 for n in out.values() if isinstance(n, Task) and n.has_subgraph())
+        if nf:
+            ctx.branch("spec-fuse-fuses" + tag)
+            if nf > 1:
+                ctx.branch("spec-fuse-chains>=2")
+            if any(isinstance(n, Alias) and n.target not in dsk for n in out.values()):
+                ctx.branch("spec-fuse-renamed")
+    # --- Task.fuse on arbitrary connected groups: a key together with some of its dependencies
+    for k, n in list(dsk.items())[:4]:
+        ds = [d for d in deps[k] if d in dsk]
+        if not ds:
+            continue
+        group = [dsk[d] for d in ds[:2]] + [n]
+        try:
+            fused = Task.fuse(*group)
+            impl = ["ok", fnode_sexp(fused)]
+        except ValueError:
+            impl = ["raised"]
+        except Exception as e:
+            ctx.fail(f"Task.fuse raised {type(e).__name__}: {e}")
+            continue
+        m = ctx.lean(Sym("spec_task_fuse"), [[to_sexp(t.key), node_sexp(t)] for t in group])
+        ctx.eq("Task.fuse (model vs code)", [m[0]] + [_canon_fnode(x) for x in m[1:]], [impl[0]] + [_canon_fnode(x) for x in impl[1:]])
+        ctx.branch("Task.fuse-" + impl[0])
+        if impl[0] == "ok":
+            # the group is private iff nothing outside refers to the inner keys: then the proved checker must accept
+            # `dsk` with the group replaced by the fused task, and the values must be unchanged
+            gkeys = [t.key for t in group[:-1]]
+            private = all(set(dependents[d]) <= {t.key for t in group} for d in gkeys) and not any(d in keys for d in gkeys)
+            out2 = {kk: nn for kk, nn in dsk.items() if kk not in gkeys}
+            out2[k] = fused
+            okc = ctx.lean(Sym("spec_fuse_ok"), gs, ks, [[to_sexp(kk), fnode_sexp(vv)] for kk, vv in out2.items()])
+            ctx.eq("Task.fuse: fuseSpecOK accepts exactly the private groups", okc, private)
+            if private:
+                check("Task.fuse", out2)
+                ctx.branch("Task.fuse-private-group")
+            else:
+                ctx.branch("Task.fuse-group-not-private")
+    # --- Task.fuse on groups without a single output: ValueError
+    ks2 = list(dsk)
+    for a, b in zip(ks2, ks2[1:2]):
+        group = [dsk[a], dsk[b]]
+        try:
+            impl = ["ok", fnode_sexp(Task.fuse(*group))]
+        except ValueError:
+            impl = ["raised"]
+        except Exception as e:
+            ctx.fail(f"Task.fuse raised {type(e).__name__}: {e}")
+            continue
+        m = ctx.lean(Sym("spec_task_fuse"), [[to_sexp(t.key), node_sexp(t)] for t in group])
+        ctx.eq("Task.fuse of two nodes (model vs code)", [m[0]] + [_canon_fnode(x) for x in m[1:]],
+               [impl[0]] + [_canon_fnode(x) for x in impl[1:]])
+        ctx.branch("Task.fuse-pair-" + impl[0])
+    # --- substitute: random substitutions on the dependencies of every node
+    for i, (k, n) in enumerate(dsk.items()):
+        dl = sorted(deps[k], key=repr)
+        if not dl:
+            continue
+        subs, sig = {}, []
+        for j, d in enumerate(dl):
+            mode = (i + j + len(dsk)) % 4
+            if mode == 0:
+                continue
+            if mode == 1 or d not in dsk:
+                subs[d] = ("fresh", j)
+                sig.append([to_sexp(d), [Sym("key"), to_sexp(("fresh", j))]])
+            elif mode == 2:
+                subs[d] = dsk[d]
+                sig.append([to_sexp(d), [Sym("node"), node_sexp(dsk[d])]])
+            else:
+                subs[d] = d          # identity entry: dropped by subs_filtered
+                sig.append([to_sexp(d), [Sym("key"), to_sexp(d)]])
+        for newkey in (None, k, 0, "", ()):
+            try:
+                r = n.substitute(subs, key=newkey)
+            except Exception as e:
+                ctx.fail(f"substitute raised {type(e).__name__}: {e}")
+                break
+            m = ctx.lean(Sym("spec_subst"), sig, node_sexp(n))
+            ctx.eq("GraphNode.substitute (model vs code)", _canon(m), _canon(node_sexp(r)))
+            if newkey is not None and (r.key != newkey or type(r.key) is not type(newkey)):
+                ctx.fail("substitute(subs, key=k): the returned node does not carry the requested key k",
+                         observed=[repr(r.key)], expected=[repr(newkey)])
+        if subs:
+            ctx.branch("substitute-applied")
+
+
+def case_specfn(ctx, inp):
+    """converted legacy graphs through every task-spec pass, diffed against the model"""
+    from dask._task_spec import convert_legacy_graph
+    items = inp["graph"]
+    legacy = {build(k): build(v) for k, v in items}
+    if len(legacy) != len(items):
+        return
+    dsk = convert_legacy_graph(legacy)
+    allkeys = [build(k) for k, _ in items]
+    keys = [k for k in (allkeys[i] for i in inp["keys"]) if k in dsk]
+    if not keys:
+        return
+    want = _vals(dsk, keys)
+    if any(isinstance(w, list) and w and w[0] == "raised" for w in want):
+        ctx.note("input-graph-raises")
+        return
+    try:
+        _ngraph(dsk)
+    except (TypeError, KeyError):
+        ctx.note("unmodelled-node")
+        return
+    _spec_passes(ctx, dsk, keys, want)
+
+
+def _mk_shape_graph(inp):
+    """task-spec graph from a DAG description: node i is `Task(key_i, F, TaskRef(deps)..)`, an `Alias`, or a `DataNode`;
+    keys are taken from `names` (strings, possibly very long, or [name, index] tuples)"""
+    from dask._task_spec import Alias, DataNode, Task, TaskRef
+    adj, kinds, names = inp["adj"], inp["kinds"], inp["names"]
+    K = [tuple(x) if isinstance(x, list) else x for x in names]
+    dsk = {}
+    order = inp.get("order") or list(range(len(adj)))
+    for i in order:
+        deps = [K[j] for j in adj[i]]
+        if kinds[i] == "alias" and len(deps) == 1:
+            dsk[K[i]] = Alias(K[i], deps[0])
+        elif kinds[i] == "data" and not deps:
+            dsk[K[i]] = DataNode(K[i], 100 + i)
+        else:
+            dsk[K[i]] = Task(K[i], FUNCS[i % 6], *[TaskRef(d) for d in deps], i)
+    return K, dsk
+
+
+def case_shape(ctx, inp):
+    """task-spec graphs built from DAG shapes (chains, alias chains, diamonds; long and colliding key names)"""
+    K, dsk = _mk_shape_graph(inp)
+    if len(dsk) != len(K):
+        return
+    keys = [K[i] for i in inp["keys"]]
+    want = _vals(dsk, keys)
+    if any(isinstance(w, list) and w and w[0] == "raised" for w in want):
+        ctx.note("input-graph-raises")
+        return
+    _spec_passes(ctx, dsk, keys, want, tag="-shape")
+    if inp.get("long"):
+        ctx.branch("shape-long-names")
+
+
+CASES = {"opt": case_opt, "fn": case_fn, "spec": case_spec, "specfn": case_specfn, "shape": case_shape}
+
+
+
+_OPS_SHORT = ["add", "inc", "getitem", "sum", "mul", "rechunk"]
+_OPS_LONG = ["rechunkmergefinalizeaggregatepartitionblock", "transposeconcatenateaxisblockwiselonglongname",
+             "elementwisebroadcastreductiontreecombinestep", "overlaptrimboundarymapblocksinternalhelper"]
+
+
+def _gen_shape(rng):
+    """DAG shapes for the task-spec passes: parallel chains with identical op names (short / over-long / tuple keys),
+    alias chains, small random DAGs"""
+    from props._graph_util import random_dag
+    flavour = rng.choice(["chains", "chains", "chains-long", "chains-long", "aliaschain", "dag"])
+    adj, kinds, names = [], [], []
+    if flavour.startswith("chains"):
+        long = flavour == "chains-long"
+        m, L = rng.randint(1, 3), rng.randint(2, 4)
+        ops = [rng.choice(_OPS_LONG if long else _OPS_SHORT) for _ in range(L)]
+        tup = rng.random() < 0.4
+        shared = rng.random() < 0.3
+        if shared:
+            adj.append([]); kinds.append(rng.choice(["data", "task"])); names.append("root-00aa11bb")
+        tops = []
+        for c in range(m):
+            tok = "%08x" % rng.getrandbits(32)
+            same_tok = tup and rng.random() < 0.5
+            for j in range(L):
+                deps = [len(adj) - 1] if j else ([0] if shared else [])
+                adj.append(deps); kinds.append("task")
+                nm = f"{ops[j]}-{'0f0f0f0f' if same_tok else tok}{j}"
+                names.append([nm, c] if tup else nm)
+            tops.append(len(adj) - 1)
+        join = rng.random() < 0.6
+        if join:
+            adj.append(list(tops)); kinds.append("task"); names.append("join-99ff00aa")
+            keys = [len(adj) - 1]
+        else:
+            keys = sorted(rng.sample(tops, rng.randint(1, len(tops))))
+        if rng.random() < 0.2:
+            keys = sorted(set(keys) | {rng.randrange(len(adj))})
+        out = {"adj": adj, "kinds": kinds, "names": names, "keys": keys, "long": long}
+    elif flavour == "aliaschain":
+        n = rng.randint(1, 4)
+        adj.append([]); kinds.append(rng.choice(["data", "task"])); names.append(rng.choice(["", "src", 0, ["x", 0]]))
+        for i in range(n):
+            adj.append([len(adj) - 1]); kinds.append("alias"); names.append(f"al{i}")
+        ncons = rng.randint(0, 2)
+        last = len(adj) - 1
+        for i in range(ncons):
+            adj.append([last] if rng.random() < 0.7 else [last, rng.randrange(last + 1)])
+            kinds.append("task"); names.append(f"cons{i}")
+        keys = sorted(rng.sample(range(len(adj)), rng.randint(1, min(2, len(adj)))))
+        if rng.random() < 0.5:
+            keys = [len(adj) - 1]
+        out = {"adj": adj, "kinds": kinds, "names": names, "keys": keys}
+    else:
+        n = rng.randint(2, 7)
+        adj = random_dag(rng, n, rng.choice([0.3, 0.5]))
+        kinds = []
+        for i in range(n):
+            kinds.append("alias" if len(adj[i]) == 1 and rng.random() < 0.4 else ("data" if not adj[i] and rng.random() < 0.4 else "task"))
+        names = [rng.choice([f"n{i}", f"op{i % 2}-{i}", ["t", i]]) for i in range(n)]
+        if rng.random() < 0.3:
+            names[0] = rng.choice([0, "", []])
+        keys = sorted(rng.sample(range(n), rng.randint(1, n)))
+        out = {"adj": adj, "kinds": kinds, "names": names, "keys": keys}
+    order = list(range(len(out["adj"])))
+    if rng.random() < 0.6:
+        rng.shuffle(order)
+    out["order"] = order
+    return out
 
 
 def _rand_keys(rng, n):
@@ -413,3 +760,9 @@ def generate(ctx):
         n = rng.randint(1, 8)
         g = gen_legacy_graph(rng, n, (), depth=2)
         yield "spec", {"graph": g, "keys": _rand_keys(rng, n), "pick": rng.randrange(50)}
+    for _ in range(ctx.n(150)):
+        n = rng.randint(1, 8)
+        g = gen_legacy_graph(rng, n, (), depth=2)
+        yield "specfn", {"graph": g, "keys": _rand_keys(rng, n)}
+    for _ in range(ctx.n(250)):
+        yield "shape", _gen_shape(rng)
